@@ -89,6 +89,9 @@ def caller_site(depth=2):
     try:
         f = sys._getframe(depth)
         mod = f.f_globals.get('__name__', '?')
+        while mod.startswith('icontract') and f.f_back is not None:
+            f = f.f_back
+            mod = f.f_globals.get('__name__', '?')
         return '%s:%s' % (mod, f.f_code.co_name)
     except Exception:
         return '?'
